@@ -28,7 +28,7 @@ CFG = {'long_max_vertices': 150,   # the exact oracle is quadratic in the vertex
                    "GeoProofs/Lemmas/RELMTotal1.lean", "GeoProofs/Lemmas/RELMTotal2.lean", "GeoProofs/Lemmas/RELMTotal3.lean",
                    "GeoProofs/Lemmas/RELMTotal4.lean", "GeoProofs/Lemmas/RELMTotal5.lean",
                    "GeoProofs/Lemmas/RELM2Node.lean", "GeoProofs/Lemmas/RELM2Areal.lean", "GeoProofs/Lemmas/RELM2Locate.lean",
-                   "GeoProofs/Lemmas/RELM2Linear.lean", "GeoProofs/Lemmas/RELM2Dom.lean", "GeoProofs/Lemmas/RELM2Disjoint.lean"],
+                   "GeoProofs/Lemmas/RELM2Linear.lean", "GeoProofs/Lemmas/RELM2Dom.lean", "GeoProofs/Lemmas/RELM2Disjoint.lean", "GeoProofs/Lemmas/RELM2Ring.lean"],
     "rule": "ordered pairs (A, B) over all 10 geometry types (Geometry enum on both sides) drawn from one shared 3..6 grid: polyomino polygons with "
             "holes (incl. holes tangent to the shell), star polygons, rectangles with holes, corner-touching multipolygons, self-avoiding lattice "
             "paths, multi line strings sharing end points (mod-2 rule), half-grid points, same-dimension collections; each case also relates the "
@@ -169,7 +169,8 @@ MANIFEST = {
             "with coordinate_position = locate from C02 coordPos_eq_locate_dom_partial (K9 exclusion vacuous for these types) "
             "(relateImpl_point_rows_eq_spec_of_nodes, relateImpl_point_rows_eq_spec_dom_partial), and columns Interior / Boundary of relate(B, Point p) "
             "through the two transpose laws (relateImpl_point_cols_eq_spec_dom_partial); on both paths of compute_intersection_matrix given DimsSpec of B "
-            "(relateImpl_point_rows_eq_spec_both_paths_partial). Open there: B a LineString / MultiLineString / "
+            "(relateImpl_point_rows_eq_spec_both_paths_partial); a closed LineString (a ring written as a line string, simple or not): no self-check, "
+            "nothing recorded, start vertex Inside by the mod-2 rule, rows = specification (relateImpl_point_rows_eq_spec_closedLineString). Open there: B an open LineString / MultiLineString / "
             "GeometryCollection (self-noding of a simple line string records nothing; mod-2 node labels vs the specification's end point count; graph of "
             "disjoint members), and the Exterior row / column. The disjoint-envelope shortcut on the whole validity domain, polygons with holes "
             "included: 'hole coordinates in the reported rectangle' and 'rings closed' follow from validity (C02X dom_facts), so relateImpl = relateSpec "
